@@ -173,14 +173,25 @@ def build():
         }''')
     ip.rewrite('SPEC', 'acc }', 'proof { assert(va.take(a.len() as int) =~= va); assert(vb.take(a.len() as int) =~= vb); } acc }')
 
+    u.text('''verus! {
+/// `self.expr_builder.get_const_value(b)`: Some(v) only for a constant node, whose value is v (proved for the real ExpressionBuilder in unit expr)
+#[verifier::external_body] pub fn get_const_value_<F: Field>(cb: &CircuitBuilder<F>, b: ExprId) -> (r: Option<F>) ensures r matches Some(v) ==> cb.val(b) == v { unimplemented!() }
+/// `==` of two field elements
+#[verifier::external_body] pub fn feq_<F: Field>(a: &F, b: &F) -> (r: bool) ensures r == (*a == *b) { unimplemented!() }
+}''')
     # ------------------------------------------------------------------ select
     s = u.extract(CB, IMPL, 'select', 'CircuitBuilder::select')
-    s.rewrite('R11', 'self.expr_builder.is_const_zero(b)', 'is_const_zero(self, b)')
-    s.rewrite('R11', 'self.expr_builder.is_const_one(b)', 'is_const_one(self, b)')
+    s.rewrite_re('R11', r'self\.expr_builder\.is_const_zero\(b\)', 'is_const_zero(self, b)', min_count=0)
+    s.rewrite_re('R11', r'self\.expr_builder\.is_const_one\(b\)', 'is_const_one(self, b)', min_count=0)
+    s.rewrite_re('R11', r'self\.expr_builder\.get_const_value\(b\)', 'get_const_value_(self, b)', min_count=0)
+    s.rewrite_re('R11', r'(\w+) == F::ZERO\b', r'feq_(&\1, &F::zero())', min_count=0)
+    s.rewrite_re('R11', r'(\w+) == F::ONE\b', r'feq_(&\1, &F::one())', min_count=0)
     s.requires('allocated', 'old(self).has(b) && old(self).has(t) && old(self).has(s)')
     s.ensures('frame', 'final(self).extends_pure(old(self))')
     s.ensures('allocated', 'final(self).has(ret)')
     s.ensures('one_selects_t', 'old(self).val(b) == F::fone() ==> final(self).val(ret) == old(self).val(t)')
+    # C02: select is an ARITHMETIC expression, s + b * (t - s), for every selector value -- a constant selector other than 0 / 1 included (the two boolean cases are its corollaries)
+    s.ensures('denotes_s_plus_b_times_t_minus_s_for_every_selector', 'final(self).val(ret) == old(self).val(b).fmul(old(self).val(t).fsub(old(self).val(s))).fadd(old(self).val(s))')
     s.ensures('zero_selects_s', 'old(self).val(b) == F::fzero() ==> final(self).val(ret) == old(self).val(s)')
     s.at_start('''proof {
             F::zero_ne_one();
@@ -189,6 +200,8 @@ def build():
             lemma_one_mul(vt.fsub(vs)); F::sub_def(vt, vs);
             F::add_assoc(vt, vs.fneg(), vs); F::add_comm(vs.fneg(), vs); F::add_neg(vs); F::add_zero(vt);
             lemma_mul_zero_left(vt.fsub(vs)); lemma_zero_add(vs);
+            // t == s: b*(s-s)+s == s
+            if t == s { let vb = self.val(b); F::sub_def(vs, vs); F::add_neg(vs); F::mul_comm(vb, F::fzero()); lemma_mul_zero_left(vb); lemma_zero_add(vs); }
         }''')
 
     u.text('verus! {\nproof fn lemma_mul_zero_left<F: Field>(a: F) ensures F::fzero().fmul(a) == F::fzero() {\n'
